@@ -398,7 +398,9 @@ func (e *Engine) sample(rng *rand.Rand, in Input, all []Input, i int, sched bool
 		Stats: true,
 	}
 	// order policy: mostly one policy everywhere; sometimes a mixture per site
-	pols := []int{Reversed, Rotated, Permuted, Permuted, PerCall, Native}
+	// never the native order at ogen's own sites: it adds nothing (map orders inside dependencies are native in
+	// every run anyway) and a failure found with it could not be replayed or attributed
+	pols := []int{Reversed, Rotated, Permuted, Permuted, PerCall}
 	sc.DefaultPolicy = pols[rng.Intn(len(pols))]
 	if rng.Intn(3) == 0 {
 		sc.SitePolicy = map[string]int{}
